@@ -27,6 +27,15 @@ def build(meta):
         lines += ["dec.sp_sll\t" + h, "dec.lph_sll\t" + h]
     else:
         lines += ["dec.%s_%s\t%s%s" % (f, suf, pre, h) for f in ("sp", "ph", "lsp", "lph")]
+    if start == "ip" and data:
+        # the IP boundary doors (slice and struct, strict and lax, dispatching and version specific): their
+        # errors and stop errors describe the same bytes; compared with the Spec fault where it lies in the IP layer
+        v = {4: "v4", 6: "v6"}.get(data[0] >> 4)
+        ops = ["ip_slice", "lax_ip_slice", "iph", "iph_lax"]
+        if v:
+            sfx = "ipv4" if v == "v4" else "ipv6"
+            ops += [sfx + "_slice", "lax_" + sfx + "_slice", "iph_" + v, "iph_" + v + "_lax"]
+        lines += ["dec.%s\t%s" % (o, h) for o in ops]
     return Case(lines, meta)
 
 
@@ -57,6 +66,9 @@ def is_trivial(c):
     return not any(("err(" in (o or "") or "stop=(" in (o or "")) for o in c.impl[2:])
 
 
+IP_DOORS = {"dec." + o for o in ("ip_slice", "lax_ip_slice", "iph", "iph_lax", "ipv4_slice", "lax_ipv4_slice", "iph_v4", "iph_v4_lax",
+                                "ipv6_slice", "lax_ipv6_slice", "iph_v6", "iph_v6_lax")}
+IP_UNITS = {"ipAny", "ipv4Header", "ipv4Packet", "ipv6Header", "ipv6Packet", "auth", "hopByHop", "destOpts", "route", "fragHeader"}
 STOP_RE = re.compile(r"stop=\((.*),(\w+)\)\)$")
 
 
@@ -79,6 +91,25 @@ def oracle(c):
             continue
         op = line.split("\t", 1)[0]
         lax = op.startswith("dec.l")
+        if op in IP_DOORS:
+            lax = "lax" in op
+            f = (fl if lax else fs) or (fs if lax else None)
+            if f is not None and f["unit"] not in IP_UNITS:
+                # the fault lies behind the IP layer: these doors do not look there
+                if o.startswith("err(") or (lax and STOP_RE.search(o)):
+                    out.append(("ip-door-error-for-transport-fault", {"op": op, "impl": o[-300:], "spec": f}))
+                continue
+            if o.startswith("err("):
+                for name, det in D.error_vs_fault(o[4:-1], f, data):
+                    det["op"] = op
+                    out.append((name, det))
+            elif lax:
+                m = STOP_RE.search(o)
+                if m:
+                    for name, det in D.error_vs_fault(m.group(1), fl, data):
+                        det["op"] = op
+                        out.append((name, det))
+            continue
         if o.startswith("err("):
             f = fl if lax else fs
             if lax and f is None:
